@@ -47,6 +47,9 @@ pub struct QueueCase {
     /// instead of the builder
     #[serde(default)]
     pub direct_ctor: bool,
+    /// the wrapped sink's flush() returns an error (whoever calls it); emits are unaffected
+    #[serde(default)]
+    pub flush_fails: bool,
     pub ops: Vec<QOp>,
 }
 
@@ -369,6 +372,7 @@ pub fn run_case_focus(case: &QueueCase, ctx: &Ctx, focus: Option<QRule>) -> Run 
             findings.push(QFinding { rules: $rules.to_vec(), op: $op, msg: format!($($arg)*) })
         };
     }
+    gate.lock().flush_fails = case.flush_fails;
     let g2 = gate.clone();
     let actor = Actor::spawn_full(gate.clone(), case.cap, case.handler, case.handler_first, case.direct_ctor, move || GatedSink { gate: g2 });
     match actor.rx.recv_timeout(w) {
@@ -928,6 +932,17 @@ pub fn run_case_focus(case: &QueueCase, ctx: &Ctx, focus: Option<QRule>) -> Run 
                     if !fatal {
                         settle!(oi);
                         check_counters!(oi);
+                        // a failing flush() of the wrapped sink is the caller's result, never a queued metric's error
+                        let handled = gate.lock().handled;
+                        if handled > handler_expected {
+                            find!(
+                                [QRule::Handler],
+                                oi,
+                                "error handler invoked {} times but the wrapped sink returned an error for {} queued metrics (the wrapped sink's flush() fails in this history: that error is not a queued metric's)",
+                                handled,
+                                handler_expected
+                            );
+                        }
                     }
                 }
             }
@@ -1151,12 +1166,13 @@ pub fn queue_case(g: QGen) -> BoxedStrategy<QueueCase> {
         1 => any::<u16>().prop_map(QOp::DebugFmt),
         g.flush_w => (any::<u16>(), prop_oneof![3 => Just(StepOut::Ok), 3 => (0u8..13).prop_map(StepOut::Err), 2 => Just(StepOut::Panic)]).prop_map(|(h, o)| QOp::Flush(h, o)),
     ];
-    (cap_strategy(), prop::bool::weighted(g.handler_p), any::<bool>(), prop::collection::vec(op, 0..=g.max_ops))
-        .prop_map(|(cap, handler, handler_first, ops)| QueueCase {
+    (cap_strategy(), prop::bool::weighted(g.handler_p), any::<bool>(), any::<bool>(), prop::collection::vec(op, 0..=g.max_ops))
+        .prop_map(|(cap, handler, handler_first, flush_fails, ops)| QueueCase {
             cap,
             handler,
             handler_first,
             direct_ctor: !handler && handler_first,
+            flush_fails,
             ops,
         })
         .boxed()
@@ -1191,7 +1207,7 @@ pub fn ending_case() -> BoxedStrategy<QueueCase> {
             for o in outs {
                 ops.push(QOp::Step(o));
             }
-            Just(QueueCase { cap, handler, handler_first: under == 1, direct_ctor: !handler && under == 2, ops })
+            Just(QueueCase { cap, handler, handler_first: under == 1, direct_ctor: !handler && under == 2, flush_fails: handler && pre_steps % 2 == 0, ops })
         })
         .boxed()
 }
@@ -1228,6 +1244,7 @@ pub fn ending_enumeration(max_cap: usize, outcomes: &[StepOut]) -> Vec<QueueCase
                             handler,
                             handler_first: false,
                             direct_ctor: !handler && occ % 2 == 1,
+                            flush_fails: handler,
                             ops: ops.clone(),
                         });
                     }
